@@ -149,7 +149,12 @@ def unit_apply_preprocessing(prop, tier=None, seed=None):
             st["fp_at_apply"] = F.snapshot(fp)
             if I.fork(apply_raises):
                 st["columns"] = "unspecified (pipeline aborted part-way)"
-                I.raise_py("ValueError", "rejected")
+                # a rejection surfaces as whatever the step / lookup raises: unknown step (KeyError), missing
+                # prerequisite or invalid option value (ValueError), invalid option name (TypeError), ...
+                classes = ["ValueError", "KeyError", "TypeError", "Exception"]
+                ci = I.choose([z3.Int("rejection_class") == i for i in range(len(classes) - 1)])
+                st["rejection_class"] = classes[ci]
+                I.raise_py(classes[ci], "rejected")
             st["columns"] = (kwargs.get("identifiers"), kwargs.get("options"))
             return sx.SDict([("d", 1)]) if kwargs.get("ret_details") else None
         I.contracts["nanite.preproc:apply"] = apply_contract
@@ -203,9 +208,11 @@ def unit_apply_preprocessing(prop, tier=None, seed=None):
             return z3.And(pa, V.bterm(a) if not isinstance(a, bool) else z3.BoolVal(a),
                           V.bterm(b) if not isinstance(b, bool) else z3.BoolVal(b))
         if out.kind == "return":
-            if prop == "C06":
-                # I1: what is remembered is what the data columns hold
+            if prop in ("C06", "C03"):
+                # I1: what is remembered is what the data columns hold (C03 needs it too: a remembered
+                # pipeline that differs from the request makes every repetition re-apply and refit)
                 S.ensure("remembered_pipeline_is_the_request", remembered_is_request(), case=case)
+            if prop == "C06":
                 if calls:
                     S.ensure("columns_hold_the_remembered_pipeline",
                              isinstance(st["columns"], tuple) and I.truth(I.equals(st["columns"][0], es.obj))
@@ -234,6 +241,7 @@ def unit_apply_preprocessing(prop, tier=None, seed=None):
         else:
             if prop == "C06":
                 # a rejected request is never remembered as applied
+                case = dict(case, rejection_class=st.get("rejection_class"))
                 S.ensure("rejected_request_not_remembered", z3.Not(remembered_is_request()), case=case,
                          witness="fit_properties")
                 # ... and nothing else may be claimed for the half-processed columns either
@@ -622,20 +630,65 @@ def replay(ob):
     P = ["compute_tip_position", "correct_force_offset", "correct_tip_offset"]
     if "rejected_request_not_remembered" in oid or "no_pipeline_claimed_after_rejection" in oid \
             or "rejected_request_leaves" in oid:
-        idnt = _curve()
-        bad = ["correct_tip_offset"]
-        outcomes = []
-        for _ in range(2):
+        requests = [(["correct_tip_offset"], {}), (["compute_tip_position", "no_such_step"], {}),
+                    (P + ["correct_force_slope"], {"correct_force_slope": {"strategy": "bogus"}}),
+                    (P, {"correct_tip_offset": {"methd": "fit_constant_line"}}),
+                    (P, {"correct_force_offset": {"region": "all"}})]
+        for bad, opts in requests:
+            for via_fit in (False, True):
+                idnt = _curve()
+                outcomes = []
+                for _ in range(2):
+                    try:
+                        if via_fit:
+                            idnt.fit_model(preprocessing=list(bad), preprocessing_options=copy.deepcopy(opts),
+                                           model_key="hertz_para")
+                        else:
+                            idnt.apply_preprocessing(list(bad), copy.deepcopy(opts))
+                        outcomes.append("accepted")
+                    except BaseException as exc:
+                        outcomes.append(type(exc).__name__)
+                remembered = idnt.fit_properties.get("preprocessing")
+                if outcomes[0] != "accepted" and (outcomes[1] == "accepted" or remembered == bad):
+                    return {"confirmed": True, "input": {"request": bad, "options": opts, "via fit_model": via_fit,
+                                                         "repeated": 2},
+                            "observed": {"outcomes": outcomes, "fit_properties.preprocessing": remembered},
+                            "required": "rejected both times and not remembered"}
+        return {"confirmed": False}
+    if "remembered_pipeline_is_the_request" in oid or "same_request" in oid or "object_remembers_request" in oid \
+            or "reapplied_only_when_needed" in oid:
+        # histories of requests incl. empty options, options for steps outside the pipeline, None
+        P2 = ["compute_tip_position", "correct_force_offset"]
+        O = {"correct_tip_offset": {"method": "fit_constant_line"}}
+        for steps, opts in ((P, O), (P2, O), (P, {})):
+            idnt = _curve()
+            idnt.apply_preprocessing(list(P), copy.deepcopy(O))
+            idnt.apply_preprocessing(list(steps), copy.deepcopy(opts))
+            st_steps = idnt.fit_properties.get("preprocessing")
+            st_opts = idnt.fit_properties.get("preprocessing_options")
+            if list(st_steps) != list(steps) or dict(st_opts) != dict(opts) or dict(idnt.preprocessing_options) != dict(opts):
+                return {"confirmed": True, "input": {"request": [steps, opts]},
+                        "observed": {"remembered steps": st_steps, "remembered options": st_opts,
+                                     "attribute options": idnt.preprocessing_options},
+                        "required": "what is remembered is the request"}
+            idnt.fit_model(model_key="hertz_para")
+            import lmfit
+            n = {"c": 0}
+            real = lmfit.minimize
+
+            def counting(*a, **k):
+                n["c"] += 1
+                return real(*a, **k)
+            lmfit.minimize = counting
             try:
-                idnt.apply_preprocessing(bad)
-                outcomes.append("accepted")
-            except Exception as exc:
-                outcomes.append(type(exc).__name__)
-        remembered = idnt.fit_properties.get("preprocessing")
-        conf = outcomes[1] == "accepted" or remembered == bad
-        return {"confirmed": conf, "input": {"request": bad, "repeated": 2},
-                "observed": {"outcomes": outcomes, "fit_properties.preprocessing": remembered},
-                "required": "rejected both times and not remembered"}
+                idnt.apply_preprocessing(list(steps), copy.deepcopy(opts))
+                idnt.fit_model()
+            finally:
+                lmfit.minimize = real
+            if n["c"]:
+                return {"confirmed": True, "input": {"request repeated": [steps, opts]},
+                        "observed": f"{n['c']} new optimisation(s) for an unchanged request", "required": 0}
+        return {"confirmed": False}
     if "owns.fit_properties.preprocessing" in oid or "owns.attribute.preprocessing" in oid:
         idnt = _curve()
         if oid.endswith("preprocessing_options"):
